@@ -225,19 +225,23 @@ def preMeaning (s : Str) : Option PreMeaning :=
   if isDecimal s then (if decVal s ≤ U32_MAX then some (.ttl (decVal s)) else none)
   else (classCode (upper s)).map .cls
 
-/-- type mnemonics (upper case) of the record types this check covers → type code -/
-def typeCode (s : Str) : Option Nat :=
-  if s = [65] then some 1                                   -- A
-  else if s = [78, 83] then some 2                          -- NS
-  else if s = [67, 78, 65, 77, 69] then some 5              -- CNAME
-  else if s = [83, 79, 65] then some 6                      -- SOA
-  else if s = [80, 84, 82] then some 12                     -- PTR
-  else if s = [77, 88] then some 15                         -- MX
-  else if s = [84, 88, 84] then some 16                     -- TXT
-  else if s = [65, 65, 65, 65] then some 28                 -- AAAA
-  else if s = [83, 82, 86] then some 33                     -- SRV
-  else if s = [65, 78, 65, 77, 69] then some 65305          -- ANAME
-  else none
+/-- type mnemonics (upper case) of the record types this check covers, with their type codes -/
+def typeTable : List (Str × Nat) :=
+  [ ([65], 1),
+    ([78, 83], 2),
+    ([67, 78, 65, 77, 69], 5),
+    ([83, 79, 65], 6),
+    ([80, 84, 82], 12),
+    ([77, 88], 15),
+    ([84, 88, 84], 16),
+    ([65, 65, 65, 65], 28),
+    ([83, 82, 86], 33),
+    ([65, 78, 65, 77, 69], 65305),
+    ([72, 73, 78, 70, 79], 13),
+    ([67, 65, 65], 257) ]
+  -- A, NS, CNAME, SOA, PTR, MX, TXT, AAAA, SRV, ANAME, HINFO, CAA
+
+def typeCode (s : Str) : Option Nat := typeTable.lookup s
 
 /-- the owner field of an `<rr>` entry; a stated `<domain-name>` comes with the name it denotes
 (the relation between the two is a hypothesis of the theorems, see `nameUses`) -/
